@@ -3,6 +3,7 @@ package rules
 import (
 	"go/ast"
 	"go/types"
+	"sort"
 	"strings"
 
 	"verif/checker/fw"
@@ -10,7 +11,7 @@ import (
 
 func init() {
 	Registry["C10"] = Spec{
-		Pkgs: map[string][]string{"v2": {"resolve", "astnorm", "plan"}},
+		Pkgs: map[string][]string{"v2": {"resolve", "astnorm", "plan", "postprocess"}},
 		Run:  runC10,
 		Thorough: func(r *fw.Run) {
 			workspaceWhoMayCall(r, []wsCallRule{
@@ -22,6 +23,9 @@ func init() {
 			"announced ids and scheduled groups derive from the same liveChildDescriptors result (initial frame, nested frames, sequence arm); the stream's Complete() is called only from a defer registered after the first successful Flush; defer groups use a plain errgroup that is joined; " +
 			"the defer normalization stages are registered in the documented order. It does not decide reconstruction equality with the non-deferred response.",
 		Mutants: []Mutant{
+			{Name: "field duplicated per concrete type by a hand-written literal without Defer/Stream (reverts the F33 fix)", File: "v2/pkg/engine/postprocess/merge_fields.go", Rule: "C10-R7", Key: "mergeFields.traverseNode/field-duplicate-carries-copy-fields",
+				Old: "\t\t\t\t\tadditionalField := n.Fields[i].Copy()\n\t\t\t\t\tadditionalField.OnTypeNames = [][]byte{additionalTypeNames[j]}\n",
+				New: "\t\t\t\t\tadditionalField := &resolve.Field{\n\t\t\t\t\t\tName:        n.Fields[i].Name,\n\t\t\t\t\t\tValue:       n.Fields[i].Value.Copy(),\n\t\t\t\t\t\tPosition:    n.Fields[i].Position,\n\t\t\t\t\t\tOnTypeNames: [][]byte{additionalTypeNames[j]},\n\t\t\t\t\t\tInfo:        n.Fields[i].Info,\n\t\t\t\t\t}\n"},
 			{Name: "defer id dropped from the @requires de-duplication key (seeded change C10-13)", File: "v2/pkg/engine/plan/node_selection_visitor.go", Rule: "C10-R6", Key: "pendingFieldRequirementExistsKey.deferID",
 				Old: "\texistsKey := pendingFieldRequirementExistsKey{fieldCtx.dsConfig.Hash(), fieldConfiguration.SelectionSet, isTypenameForEntityInterface, deferID}", New: "\t_ = deferID\n\texistsKey := pendingFieldRequirementExistsKey{dsHash: fieldCtx.dsConfig.Hash(), selectionSet: fieldConfiguration.SelectionSet, isTypenameForEntityInterface: isTypenameForEntityInterface}"},
 			{Name: "error frame of a failed defer group written outside the data lock", File: resolveGo, Rule: "C10-R1", Key: "resolveDeferSingle",
@@ -47,6 +51,10 @@ func init() {
 
 func runC10(r *fw.Run) {
 	defer c10DeferScopedKeys(r)
+	defer func() {
+		r.Rule("C10-R7", "every hand-written duplicate of a resolve.Field in the post-processor / planner (a Field literal fed from another Field) sets every field that Field.Copy sets — in particular Defer and Stream")
+		fieldDuplicationsCarryCopyFields(r, "C10-R7")
+	}()
 	p := r.Prog
 	pk := p.Pkg("resolve")
 	if pk == nil {
@@ -583,4 +591,98 @@ func c10DeferScopedKeys(r *fw.Run) {
 	}
 	r.Expect("C10-R6", "defer-scoped key types in package plan", len(keyTypes), 2)
 	r.Expect("C10-R6", "literals of defer-scoped keys", nLits, 2)
+}
+
+// fieldDuplicationsCarryCopyFields: resolve.Field.Copy defines what "a copy of a response field" consists of (Name, Value,
+// Position, Defer, Stream, OnTypeNames, Info). The post-processor also duplicates fields by hand — merge_fields splits a
+// field selected through a fragment on an abstract type into one field per concrete type. Such a hand-written duplicate (a
+// resolve.Field literal one of whose values is read from another Field) must set every field that Copy sets; a duplicate
+// without Defer renders the deferred field in the initial payload for every concrete type but the first — as null, because
+// its fetch belongs to the deferred group — and the whole object is nulled when the field is non-null.
+func fieldDuplicationsCarryCopyFields(r *fw.Run, rule string) {
+	p := r.Prog
+	cp := p.Func("resolve", "Field.Copy")
+	if cp == nil {
+		r.Error("%s: resolve.Field.Copy not found", rule)
+		return
+	}
+	fieldT := p.Named("resolve", "Field")
+	keysOf := func(info *types.Info, cl *ast.CompositeLit) map[string]bool {
+		out := map[string]bool{}
+		for _, el := range cl.Elts {
+			if kv, ok := el.(*ast.KeyValueExpr); ok {
+				if id, isID := kv.Key.(*ast.Ident); isID {
+					out[id.Name] = true
+				}
+			}
+		}
+		return out
+	}
+	var want map[string]bool
+	fw.WalkAll(cp.Decl.Body, func(nd ast.Node) bool {
+		if cl, ok := nd.(*ast.CompositeLit); ok && want == nil {
+			if tv, okT := cp.Info().Types[cl]; okT && types.Identical(derefT(tv.Type), fieldT) {
+				want = keysOf(cp.Info(), cl)
+			}
+		}
+		return true
+	})
+	if len(want) < 5 {
+		r.Error("%s: the Field literal of resolve.Field.Copy was not recognised", rule)
+		return
+	}
+	n := 0
+	for _, pa := range []string{"postprocess", "plan", "resolve"} {
+		for _, fi := range p.Funcs(pa) {
+			if fi == cp {
+				continue
+			}
+			info := fi.Info()
+			ord := 0
+			fw.WalkAll(fi.Decl.Body, func(nd ast.Node) bool {
+				cl, ok := nd.(*ast.CompositeLit)
+				if !ok {
+					return true
+				}
+				if tv, okT := info.Types[cl]; !okT || !types.Identical(derefT(tv.Type), fieldT) {
+					return true
+				}
+				// a duplicate: some value is a selection on another *resolve.Field
+				dup := false
+				for _, el := range cl.Elts {
+					kv, isKV := el.(*ast.KeyValueExpr)
+					if !isKV {
+						continue
+					}
+					fw.WalkAll(kv.Value, func(m ast.Node) bool {
+						if sel, isSel := m.(*ast.SelectorExpr); isSel {
+							if tv, okT := info.Types[sel.X]; okT && types.Identical(derefT(tv.Type), fieldT) {
+								dup = true
+							}
+						}
+						return true
+					})
+				}
+				if !dup {
+					return true
+				}
+				n++
+				ord++
+				have := keysOf(info, cl)
+				var missing []string
+				for k := range want {
+					if !have[k] {
+						missing = append(missing, k)
+					}
+				}
+				sort.Strings(missing)
+				r.Check(len(missing) == 0, rule, fi.Name()+"/field-duplicate-carries-copy-fields#"+itoa(ord), p.Pos(cl.Pos()), "the hand-written duplicate of a response field in "+fi.Name()+" sets every field that resolve.Field.Copy sets",
+					"the duplicate leaves "+strings.Join(missing, ", ")+" at the zero value although Field.Copy carries it: for every concrete type but the first the duplicated field loses its @defer marker — it is rendered in the initial payload (null: its fetch is deferred), a non-null field nulls the whole object, and the incremental item targets a path that is null")
+				return true
+			})
+		}
+	}
+	// after the repair of F33 every duplicate goes through Field.Copy: zero instances is the expected state, the positive
+	// control is the seeded mutant of the thorough tier (the hand-written literal of the unrepaired tree)
+	r.Pass(rule, "field-duplicates-scanned", "-", itoa(n)+" hand-written duplicates of resolve.Field in postprocess, plan and resolve examined (Field.Copy itself excluded)", true)
 }
